@@ -464,6 +464,10 @@ DENSE_CASES = [
          temperature=205.0, frequency=19e9, active=False, mu_i=[0.3, 0.6], dirs=[[0.3, 0.6]]),
     dict(emmodel="dmrt_qcacp_shortrange", ms="sticky_hard_spheres", ms_params=dict(radius=4e-4, stickiness=0.5), density=650.0,
          temperature=220.0, frequency=13e9, active=True, mu_i=[0.3, 0.6], dirs=[[0.3, 0.6]]),
+    dict(emmodel="dmrt_qca_shortrange", ms="sticky_hard_spheres", ms_params=dict(radius=6e-4, stickiness=0.5), density=650.0,
+         temperature=260.0, frequency=10e9, active=False, mu_i=[0.3, 0.6], dirs=[[0.3, 0.6]]),
+    dict(emmodel="dmrt_qca_shortrange", ms="sticky_hard_spheres", ms_params=dict(radius=3e-4, stickiness=0.5), density=750.0,
+         temperature=260.0, frequency=37e9, active=False, mu_i=[0.3, 0.6], dirs=[[0.3, 0.6]]),
 ]
 
 
@@ -629,7 +633,7 @@ def oracle(ctx, hints, effort):
                     continue          # a loud refusal (e.g. no solution for the stickiness parameter) is not a wrong value
                 bad = [("exception", f"{type(e).__name__}: {e}", type(e).__name__, "a value")]
             for suffix, what, obs, req in bad:
-                key = site(name, suffix)
+                key = site(name, suffix) + (":dense" if any(inp is c_ for c_ in DENSE_CASES) else "")
                 f = Finding(key, f"{name} x {ms}: {what}", inp, obs, req)
                 if key not in findings:
                     findings[key] = f
@@ -641,6 +645,8 @@ def replay(inp, rp=None):
     if not bad:
         return None
     want = (rp or {}).get("key", "")
+    if want.endswith(":dense"):
+        want = want[:-len(":dense")]
     for suffix, what, obs, req in bad:
         if not want or want.endswith(":" + suffix):
             return Finding(want or site(inp["emmodel"], suffix), what, inp, obs, req)
